@@ -68,7 +68,7 @@ func VerifHarness_C09_Native() {
 		q.PostRoot = *big.NewInt(12345)
 		invalid, _ = json.Marshal(&q)
 	}
-	h := proveHandler{provingSystem: ps, mode: mode}
+	h := verifDeploy(ps, mode)
 	if mode == DeletionMode {
 		// padding slots (index with the skip bit) whose merkle proof has the wrong length are still a dimension error
 		var dp prover.DeletionParameters
